@@ -222,31 +222,37 @@ Proof. vm_compute. reflexivity. Qed.
    EVERY genes_at_a_time = k >= 1 (Model/SelectionK.v; the theorems above are the case k = 1).
    One iteration of `while True` = update of been_filled / utility (the list sorted_utility_idx is
    re-sorted - and then holds every gene again, chosen ones included - only if a slot was newly
-   filled), the two `break`s, then k pops of the LAST element of the list with nothing recomputed in
-   between.  `popk`/`stepk`/`runk`/`replayk` take the genes popped, grouped per iteration, as input;
-   a pop is legal iff the gene is a member of the list of maximal utility among the members.
-   Outcomes: KDone (break), KRaise KEmpty (IndexError: pop from empty list), KRaise (KTwice g)
-   (RuntimeError: chose gene g twice).
+   filled), the two `break`s, then AT MOST k pops of the LAST element of the list with nothing
+   recomputed in between: _choose_gene stops the batch as soon as the list is empty or its last
+   element has utility <= 0 (repair of F23/F24/F25; before it a batch popped k entries whatever their
+   utility, selected genes marking nothing, raised IndexError on the empty list and RuntimeError
+   "chose gene twice" on a re-sorted one).
+   `popk`/`stepk`/`runk`/`replayk` take the genes popped, grouped per iteration, as input; a pop is
+   legal iff the gene is a member of the list of maximal utility among the members and that utility is
+   positive; a batch shorter than k is legal iff no member left has a positive utility.
+   Outcomes: KDone (break); KRaise (KTwice g) (the statement `raise RuntimeError: chose gene g twice`
+   that is still in _choose_one_gene) - proved unreachable below.  IndexError is not an outcome any
+   more: pop(-1) is executed on a non-empty list only.
    ==================================================================================================== *)
 
 (* k = 1 is exactly the model of Selection.v: from any state satisfying the loop invariant (JK = J
    without "every chosen gene marks a slot") with a list holding every unchosen gene (PI), the
    batched loop fed with singleton batches accepts exactly the choice sequences `run` accepts, with
-   the same final state ... *)
+   the same final state (the early stop never fires on the first pop of a batch) ... *)
 Theorem c12_batch_one_is_step : forall n_genes pairs marks n trace st pool i,
   JK n_genes pairs marks n st -> PI n_genes st pool ->
   kres_opt (runk n_genes pairs marks n 1 st pool (map (fun g => [g]) trace) i) = run n_genes pairs marks n st trace.
 Proof. exact batch_one_is_run. Qed.
 Print Assumptions c12_batch_one_is_step.
 
-(* ... the state and list at the entry of `while True` satisfy both ... *)
+(* ... the state and list at the entry of `while True` satisfy both (and the full invariant J) ... *)
 Theorem c12_batch_initially : forall n_genes pairs marks n,
   JK n_genes pairs marks n (start n_genes pairs marks n) /\
   PI n_genes (start n_genes pairs marks n) (pool0 n_genes pairs marks n).
 Proof. intros. split; [apply JK_start | apply PI_pool0]. Qed.
 Print Assumptions c12_batch_initially.
 
-(* ... and with k = 1 neither exception can occur, whatever batches are offered *)
+(* ... and with k = 1 the exception cannot occur, whatever batches are offered *)
 Theorem c12_batch_one_never_raises : forall n_genes pairs marks n trace st pool i e,
   JK n_genes pairs marks n st -> PI n_genes st pool ->
   runk n_genes pairs marks n 1 st pool trace i <> KRaise e.
@@ -261,8 +267,18 @@ Theorem c12_batch_no_duplicates : forall n_genes pairs marks n k prefix batches 
 Proof. exact batch_no_duplicates. Qed.
 Print Assumptions c12_batch_no_duplicates.
 
-(* every k: coverage on termination.  Batching cannot stop early: the `break`s are evaluated on the
-   freshly updated flags, and a slot is flagged only under one of the three filling conditions *)
+(* every k: every selected gene is a gene of the thinned array AND a reference marker of at least one
+   pair the parent must discriminate - the full clause, as c12_only_useful_genes for k = 1
+   (was c12_batch_in_query_and_marker_refuted before the repair: F23) *)
+Theorem c12_batch_in_query_and_marker : forall n_genes pairs marks n k prefix batches st,
+  replayk n_genes pairs marks n k prefix batches = KDone st ->
+  forall g, In g (chosen st) -> g < n_genes /\ exists p d, In p pairs /\ marks g (p, d) = true.
+Proof. exact batch_in_query_and_marker. Qed.
+Print Assumptions c12_batch_in_query_and_marker.
+
+(* every k: coverage on termination.  Neither batching nor the early stop of a batch can end the LOOP
+   early: the `break`s are evaluated on the freshly updated flags, and a slot is flagged only under
+   one of the three filling conditions *)
 Theorem c12_batch_coverage : forall n_genes pairs marks n k prefix batches st,
   no_gene_both_ways marks ->
   replayk n_genes pairs marks n k prefix batches = KDone st ->
@@ -271,8 +287,18 @@ Theorem c12_batch_coverage : forall n_genes pairs marks n k prefix batches st,
 Proof. exact batch_coverage. Qed.
 Print Assumptions c12_batch_coverage.
 
-(* every k: the executable statement the harness evaluates on the lists returned with
-   genes_at_a_time > 1 (spec_c12 without its "marks a slot of the parent" clause) *)
+(* every k: the executable statement of C12, spec_c12 - the SAME predicate as for k = 1: no
+   duplicates; every gene a gene of the thinned array marking a slot of the parent; coverage - holds
+   on the result of every completed run ... *)
+Theorem c12_batch_full_spec : forall n_genes pairs marks n k prefix batches st,
+  no_gene_both_ways marks ->
+  replayk n_genes pairs marks n k prefix batches = KDone st ->
+  spec_c12 n_genes pairs marks n (chosen st) = true.
+Proof. exact batch_full_spec. Qed.
+Print Assumptions c12_batch_full_spec.
+
+(* ... and so does its part spec_c12_batch (spec_c12 without the "marks a slot" clause), which the
+   harness reports separately *)
 Theorem c12_batch_spec_holds : forall n_genes pairs marks n k prefix batches st,
   no_gene_both_ways marks ->
   replayk n_genes pairs marks n k prefix batches = KDone st ->
@@ -280,22 +306,35 @@ Theorem c12_batch_spec_holds : forall n_genes pairs marks n k prefix batches st,
 Proof. exact spec_batch_holds. Qed.
 Print Assumptions c12_batch_spec_holds.
 
-(* every k: legality of the trace.  A batch has exactly k genes, appended in order, pairwise
-   distinct; each is a gene of the thinned array that was unchosen when the batch was formed, and no
-   gene unchosen then and not popped earlier in the batch had a larger utility - utility = the
-   array when the batch was formed (st1, after this iteration's update); ties are the input *)
+(* every k: legality of the trace.  A batch has BETWEEN 1 AND k genes, appended in order, pairwise
+   distinct; each is a gene of the thinned array that was unchosen when the batch was formed, of
+   POSITIVE utility, and no gene unchosen then and not popped earlier in the batch had a larger
+   utility - utility = the array when the batch was formed (st1, after this iteration's update); ties
+   are the input.  The batch is shorter than k only if it ran out of useful genes: no gene left
+   unchosen after it has a positive utility *)
 Theorem c12_batch_trace_legal : forall n_genes pairs marks n k st pool batch st' pool',
   JK n_genes pairs marks n st -> PI n_genes st pool ->
   stepk n_genes pairs marks n k st pool batch = SNext st' pool' ->
   let st1 := update_filled n_genes pairs marks n st in
-  length batch = k /\ chosen st' = chosen st ++ batch /\ NoDup batch /\
-  forall b1 g b2, batch = b1 ++ g :: b2 ->
-    g < n_genes /\ ~ In g (chosen st) /\
-    forall h, h < n_genes -> ~ In h (chosen st) -> ~ In h b1 -> (utility st1 h <= utility st1 g)%Z.
+  (1 <= k -> 1 <= length batch) /\ length batch <= k /\
+  chosen st' = chosen st ++ batch /\ NoDup batch /\
+  (forall b1 g b2, batch = b1 ++ g :: b2 ->
+    g < n_genes /\ ~ In g (chosen st) /\ (0 < utility st1 g)%Z /\
+    forall h, h < n_genes -> ~ In h (chosen st) -> ~ In h b1 -> (utility st1 h <= utility st1 g)%Z) /\
+  (length batch < k -> forall h, h < n_genes -> ~ In h (chosen st') -> (utility st1 h <= 0)%Z).
 Proof. exact batch_trace_legal. Qed.
 Print Assumptions c12_batch_trace_legal.
 
-(* the invariants are preserved by every batch *)
+(* ... exactly: the length of a batch is min(k, number of genes of positive utility when the batch is
+   formed) - it is shorter than k iff fewer than k useful genes are left *)
+Theorem c12_batch_length_exact : forall n_genes pairs marks n k st pool batch st' pool',
+  JK n_genes pairs marks n st -> PI n_genes st pool ->
+  stepk n_genes pairs marks n k st pool batch = SNext st' pool' ->
+  length batch = Nat.min k (n_useful n_genes (update_filled n_genes pairs marks n st)).
+Proof. exact batch_length_exact. Qed.
+Print Assumptions c12_batch_length_exact.
+
+(* the invariants are preserved by every batch: JK and PI ... *)
 Theorem c12_batch_invariant_preserved : forall n_genes pairs marks n k st pool b st' pool',
   JK n_genes pairs marks n st -> PI n_genes st pool ->
   stepk n_genes pairs marks n k st pool b = SNext st' pool' ->
@@ -303,96 +342,61 @@ Theorem c12_batch_invariant_preserved : forall n_genes pairs marks n k st pool b
 Proof. intros n_genes pairs marks n k. exact (stepk_inv n_genes pairs marks n k). Qed.
 Print Assumptions c12_batch_invariant_preserved.
 
-(* "reference marker of a pair of the parent": what survives is the FIRST gene of every batch (it has
-   positive utility: it marks a slot of the parent that is not yet filled) ... *)
-Theorem c12_batch_head_is_marker : forall n_genes pairs marks n k st pool g b st' pool',
+(* ... and the FULL invariant J of the k = 1 loop (every chosen gene marks a slot of the parent) *)
+Theorem c12_batch_full_invariant_preserved : forall n_genes pairs marks n k st pool b st' pool',
+  J n_genes pairs marks n st -> PI n_genes st pool ->
+  stepk n_genes pairs marks n k st pool b = SNext st' pool' ->
+  J n_genes pairs marks n st' /\ PI n_genes st' pool'.
+Proof. exact stepk_invJ. Qed.
+Print Assumptions c12_batch_full_invariant_preserved.
+
+(* EVERY gene of every batch (not only the first) is a reference marker of a slot of the parent that
+   was not yet filled when the batch was formed *)
+Theorem c12_batch_genes_are_markers : forall n_genes pairs marks n k st pool batch st' pool' g,
   JK n_genes pairs marks n st -> PI n_genes st pool ->
-  stepk n_genes pairs marks n k st pool (g :: b) = SNext st' pool' ->
+  stepk n_genes pairs marks n k st pool batch = SNext st' pool' -> In g batch ->
   exists s, In s (slots pairs) /\ marks g s = true /\ filled (update_filled n_genes pairs marks n st) s = false.
-Proof. intros n_genes pairs marks n k. exact (batch_head_is_marker n_genes pairs marks n k). Qed.
-Print Assumptions c12_batch_head_is_marker.
+Proof. intros n_genes pairs marks n k. exact (batch_genes_are_markers n_genes pairs marks n k). Qed.
+Print Assumptions c12_batch_genes_are_markers.
 
-(* ... the clause itself is REFUTED for k = 2 (finding): one pair with up-markers 0,1,2 and no
-   down-marker, gene 3 marks nothing, n = 2.  Batch [2;1], then - the pair is not filled, 2 < 3 =
-   census and 2 < 2n - batch [0;3]: gene 3, of utility 0, is popped because the batch must have two
-   genes.  select_marker_genes_v2(..., n_per_utility=2, genes_at_a_time=2) returns
-   ['g2','g1','g0','g3'] on this table.  spec_c12 is false, spec_c12_batch true on the result *)
-Theorem c12_batch_in_query_and_marker_refuted :
-  exists n_genes pairs pd n k prefix batches sel g,
-    both_ways_free pd = true /\
-    kres_chosen (replayk n_genes pairs (marks_of pd) n k prefix batches) = Some sel /\
-    In g sel /\ existsb (fun s => marks_of pd g s) (slots pairs) = false /\
-    spec_c12 n_genes pairs (marks_of pd) n sel = false /\
-    spec_c12_batch n_genes pairs (marks_of pd) n sel = true.
-Proof.
-  exists 4, [0], [([], [0; 1; 2])], 2, 2, [], [[2; 1]; [0; 3]], [2; 1; 0; 3], 3.
-  vm_compute. repeat split; auto.
-Qed.
-Print Assumptions c12_batch_in_query_and_marker_refuted.
+(* every k >= 1: the call never raises.  (a) whatever desperate prefix and batches are offered, the
+   replay never ends in the exception - the `raise RuntimeError("chose gene twice")` statement is
+   unreachable: a gene is popped only if its utility is positive, a chosen gene has utility -1;
+   (b) the fuelled deterministic instance (first member of maximal utility, at most k times per pass)
+   ends in `break` on EVERY table.
+   (were c12_batch_returns_refuted_empty_list / _chosen_twice before the repair: F24, F25) *)
+Theorem c12_batch_never_raises : forall n_genes pairs marks n k,
+  1 <= k ->
+  (forall prefix batches e, replayk n_genes pairs marks n k prefix batches <> KRaise e) /\
+  exists st, greedyk n_genes pairs marks n k (S n_genes) (start n_genes pairs marks n) (pool0 n_genes pairs marks n) = GDone st.
+Proof. exact batch_total. Qed.
+Print Assumptions c12_batch_never_raises.
 
-(* "a run returns" is REFUTED for k >= 2 (finding): the same table without gene 3 - the second batch
-   pops gene 0 and then finds the list empty (no slot was newly filled, so it was not re-sorted):
-   IndexError: pop from empty list ... *)
-Theorem c12_batch_returns_refuted_empty_list :
-  exists n_genes pairs pd n k prefix batches,
-    both_ways_free pd = true /\
-    replayk n_genes pairs (marks_of pd) n k prefix batches = KRaise KEmpty.
-Proof.
-  exists 3, [0], [([], [0; 1; 2])], 2, 2, [], [[2; 1]; [0]]. vm_compute. split; reflexivity.
-Qed.
-Print Assumptions c12_batch_returns_refuted_empty_list.
-
-(* ... and when the list HAS been re-sorted (it then holds the chosen genes again) the pop after the
-   last unchosen gene returns a chosen one: RuntimeError "chose gene twice".  Three leaves a, b, c;
-   pair a|b has up-markers {0,1,2}, a|c up-markers {3,4}, b|c none; n = 2, k = 2: 3 and 4 are taken by
-   the desperate phase, the first update fills a|c (re-sort), batches [2;1] and [0;4].
-   select_marker_genes_v2(..., n_per_utility=2, genes_at_a_time=2) raises "chose gene 4 twice" *)
-Theorem c12_batch_returns_refuted_chosen_twice :
-  exists n_genes pairs pd n k prefix batches g,
-    both_ways_free pd = true /\
-    replayk n_genes pairs (marks_of pd) n k prefix batches = KRaise (KTwice g).
-Proof.
-  exists 5, [0; 1; 2], [([], [0; 1; 2]); ([], [3; 4]); ([], [])], 2, 2, [3; 4], [[2; 1]; [0; 4]], 4.
-  vm_compute. split; reflexivity.
-Qed.
-Print Assumptions c12_batch_returns_refuted_chosen_twice.
-
-(* exactly when: a batch cannot raise while at least k genes of the thinned array are unchosen ... *)
-Theorem c12_batch_no_raise_when_enough_genes : forall n_genes pairs marks n k st pool batch e,
-  JK n_genes pairs marks n st -> PI n_genes st pool -> k <= n_genes - length (chosen st) ->
-  stepk n_genes pairs marks n k st pool batch <> SRaise e.
-Proof. exact batch_no_raise_when_enough_genes. Qed.
-Print Assumptions c12_batch_no_raise_when_enough_genes.
-
-(* ... and can only complete if there were: with fewer than k unchosen genes left and the loop not
-   finished, EVERY tie order ends in one of the two exceptions *)
-Theorem c12_batch_completes_only_with_enough_genes : forall n_genes pairs marks n k st pool batch st' pool',
+(* ... from any state of the loop *)
+Theorem c12_batch_step_never_raises : forall n_genes pairs marks n k trace st pool i e,
   JK n_genes pairs marks n st -> PI n_genes st pool ->
-  stepk n_genes pairs marks n k st pool batch = SNext st' pool' ->
-  k <= n_genes - length (chosen st).
-Proof. exact batch_completes_only_with_enough_genes. Qed.
-Print Assumptions c12_batch_completes_only_with_enough_genes.
+  runk n_genes pairs marks n k st pool trace i <> KRaise e.
+Proof. intros n_genes pairs marks n k. exact (runk_never_raises n_genes pairs marks n k). Qed.
+Print Assumptions c12_batch_step_never_raises.
 
-(* termination for every k >= 1: the fuelled deterministic instance (first member of maximal utility,
-   k times per pass) never runs out of fuel n_genes + 1; it ends in `break` or in one of the two
-   exceptions, and its outcome is the outcome of a legal run *)
+(* termination for every k >= 1: the fuelled deterministic instance never runs out of fuel
+   n_genes + 1 (every pass that does not break chooses at least one new gene), it ends in `break`, and
+   its result is the result of a legal run *)
 Theorem c12_batch_terminates : forall n_genes pairs marks n k,
   1 <= k ->
-  exists trace,
-    match greedyk n_genes pairs marks n k (S n_genes) (start n_genes pairs marks n) (pool0 n_genes pairs marks n) with
-    | GDone st => replayk n_genes pairs marks n k (chosen (start n_genes pairs marks n)) trace = KDone st
-    | GRaise e => replayk n_genes pairs marks n k (chosen (start n_genes pairs marks n)) trace = KRaise e
-    | GOutOfFuel => False
-    end.
+  exists trace st,
+    greedyk n_genes pairs marks n k (S n_genes) (start n_genes pairs marks n) (pool0 n_genes pairs marks n) = GDone st /\
+    replayk n_genes pairs marks n k (chosen (start n_genes pairs marks n)) trace = KDone st.
 Proof. exact batch_terminates. Qed.
 Print Assumptions c12_batch_terminates.
 
-(* every completed run chooses exactly k genes per pass and at most n_genes in all:
-   k * (number of batches) <= n_genes *)
+(* every completed run chooses between 1 and k genes per pass and at most n_genes in all: the number
+   of passes is at most n_genes + 1 *)
 Theorem c12_batch_iterations_bounded : forall n_genes pairs marks n k trace st pool i st',
-  JK n_genes pairs marks n st -> PI n_genes st pool ->
+  1 <= k -> JK n_genes pairs marks n st -> PI n_genes st pool ->
   runk n_genes pairs marks n k st pool trace i = KDone st' ->
-  length (chosen st') = length (chosen st) + k * length trace /\ length (chosen st') <= n_genes.
+  length (chosen st) + length trace <= length (chosen st') /\
+  length (chosen st') <= length (chosen st) + k * length trace /\ length (chosen st') <= n_genes.
 Proof. intros n_genes pairs marks n k. exact (batch_iterations_bounded n_genes pairs marks n k). Qed.
 Print Assumptions c12_batch_iterations_bounded.
 
@@ -421,10 +425,41 @@ Example ex_batch_one_sided :
   kres_chosen (replayk 6 [0] (marks_of [([3; 4; 5], [0; 1; 2])]) 1 2 [] [[5; 4]]) = Some [5; 4] /\
   kres_chosen (replayk 6 [0] (marks_of [([3; 4; 5], [0; 1; 2])]) 1 1 [] [[5]; [2]]) = Some [5; 2].
 Proof. vm_compute. split; reflexivity. Qed.
-(* the deterministic instance on the three refutation tables *)
+(* the three tables on which the unrepaired code went wrong (F23, F24, F25), n = 2, k = 2.
+   F23: one pair with up-markers 0,1,2, gene 3 marks nothing.  Batch [2;1], then - the pair is not
+   filled - the SHORT batch [0]: gene 3 has utility 0 and stays out (the old code popped [0;3]; that
+   batch is now refused); spec_c12 holds on [2;1;0].
+   F24: the same table without gene 3: second batch [0], then the list is empty: the batch stops (the
+   old code raised IndexError), the loop breaks on max utility <= 0.
+   F25: pairs a|b {0,1,2}, a|c {3,4}, b|c {}: 3 and 4 are taken by the desperate phase, the first update
+   fills a|c (re-sort: the list holds 3 and 4 again, utility -1); batches [2;1] and [0] - the candidate
+   after 0 is a chosen gene of utility -1: stop (the old code raised "chose gene 4 twice") *)
+Example ex_batch_f23 :
+  kres_chosen (replayk 4 [0] (marks_of [([], [0; 1; 2])]) 2 2 [] [[2; 1]; [0]]) = Some [2; 1; 0] /\
+  replayk 4 [0] (marks_of [([], [0; 1; 2])]) 2 2 [] [[2; 1]; [0; 3]] = KIllegal 1 /\
+  spec_c12 4 [0] (marks_of [([], [0; 1; 2])]) 2 [2; 1; 0] = true /\
+  spec_c12 4 [0] (marks_of [([], [0; 1; 2])]) 2 [2; 1; 0; 3] = false.
+Proof. vm_compute. repeat split; reflexivity. Qed.
+Example ex_batch_f24 :
+  kres_chosen (replayk 3 [0] (marks_of [([], [0; 1; 2])]) 2 2 [] [[2; 1]; [0]]) = Some [2; 1; 0].
+Proof. vm_compute. reflexivity. Qed.
+Example ex_batch_f25 :
+  kres_chosen (replayk 5 [0; 1; 2] (marks_of [([], [0; 1; 2]); ([], [3; 4]); ([], [])]) 2 2 [3; 4] [[2; 1]; [0]])
+    = Some [3; 4; 2; 1; 0] /\
+  replayk 5 [0; 1; 2] (marks_of [([], [0; 1; 2]); ([], [3; 4]); ([], [])]) 2 2 [3; 4] [[2; 1]; [0; 4]] = KIllegal 1.
+Proof. vm_compute. split; reflexivity. Qed.
+(* a short batch is legal ONLY when nothing useful is left: [2] alone is refused while 0 is available *)
+Example ex_batch_short_illegal :
+  replayk 4 [0; 1] (marks_of ex_pd) 2 2 [] [[2]; [0]; [1; 3]] = KIllegal 0.
+Proof. vm_compute. reflexivity. Qed.
+(* the deterministic instance on the three tables: `break` *)
 Example ex_greedyk :
   (match greedyk 4 [0] (marks_of [([], [0; 1; 2])]) 2 2 5 (start 4 [0] (marks_of [([], [0; 1; 2])]) 2)
-                 (pool0 4 [0] (marks_of [([], [0; 1; 2])]) 2) with GDone st => chosen st | _ => [] end) = [0; 1; 2; 3] /\
+                 (pool0 4 [0] (marks_of [([], [0; 1; 2])]) 2) with GDone st => chosen st | _ => [] end) = [0; 1; 2] /\
   (match greedyk 3 [0] (marks_of [([], [0; 1; 2])]) 2 2 4 (start 3 [0] (marks_of [([], [0; 1; 2])]) 2)
-                 (pool0 3 [0] (marks_of [([], [0; 1; 2])]) 2) with GRaise e => Some e | _ => None end) = Some KEmpty.
-Proof. vm_compute. split; reflexivity. Qed.
+                 (pool0 3 [0] (marks_of [([], [0; 1; 2])]) 2) with GDone st => chosen st | _ => [] end) = [0; 1; 2] /\
+  (match greedyk 5 [0; 1; 2] (marks_of [([], [0; 1; 2]); ([], [3; 4]); ([], [])]) 2 2 6
+                 (start 5 [0; 1; 2] (marks_of [([], [0; 1; 2]); ([], [3; 4]); ([], [])]) 2)
+                 (pool0 5 [0; 1; 2] (marks_of [([], [0; 1; 2]); ([], [3; 4]); ([], [])]) 2) with GDone st => chosen st | _ => [] end)
+    = [3; 4; 0; 1; 2].
+Proof. vm_compute. repeat split; reflexivity. Qed.
